@@ -506,8 +506,12 @@ impl<R: RuleType> ::serde::Serialize for Pairs<'_, R> {
     where
         S: ::serde::Serializer,
     {
-        let start = self.pos(self.start);
-        let end = self.pos(self.end - 1);
+        // An empty `Pairs` has no tokens to take positions from.
+        let (start, end) = if self.start < self.end {
+            (self.pos(self.start), self.pos(self.end - 1))
+        } else {
+            (0, 0)
+        };
         let pairs = self.clone().collect::<Vec<_>>();
 
         let mut ser = serializer.serialize_struct("Pairs", 2)?;
